@@ -27,7 +27,7 @@ open Tranp Tranp.Generated.EvalOps
 
 /-- Python exceptions that can occur while evaluating (same names as `harness.common.exc_enum`).
     `unsupported` = outside the modelled CPython fragment (never an answer about CPython);
-    `excluded` = raised only by the strict modes of `evalPy` on the regions H1–H5 cut out. -/
+    `excluded` = raised only by the strict mode of `evalPy` on the one region it cuts out (`0X…` literals). -/
 inductive PyExc where
   | zeroDivision | valueError | overflowError | typeError | indexError | nameError | recursionError
   | syntaxError | unsupported | excluded | other (tag : Str)
@@ -77,12 +77,6 @@ instance {ε α : Type} [DecidableEq ε] [DecidableEq α] : DecidableEq (Except 
   | .error a, .error b => if h : a = b then isTrue (by rw [h]) else isFalse (by intro h'; injection h' with h''; exact h h'')
   | .ok _, .error _ => isFalse (by intro h; cases h)
   | .error _, .ok _ => isFalse (by intro h; cases h)
-
-/-- `float(a) / float(b)`: what `_op_bin_each` computes for `a / b` (evaluator.py:71-72). -/
-def FloatOps.naiveDiv {F} (ops : FloatOps F) (a b : Int) : Except PyExc F := do
-  let x ← ops.ofInt a
-  let y ← ops.ofInt b
-  ops.div x y
 
 /-! ## CPython primitives both evaluators share (the folder runs CPython's own int and str operations) -/
 
@@ -232,9 +226,8 @@ def classifyStr (tok : Str) : StrTok :=
   match tok with
   | q :: rest =>
     if isQuote q then
-      if 6 ≤ tok.length && Str.startsWith rest [q, q] && Str.endsWith rest [q, q, q] then
-        let body := (rest.drop 2).take (rest.length - 5)
-        if tripleBodyOk q body then .triple body else .other
+      if 6 ≤ tok.length && tok.take 3 = [q, q, q] && tok.drop (tok.length - 3) = [q, q, q] then
+        (if tripleBodyOk q ((tok.drop 3).take (tok.length - 6)) then .triple ((tok.drop 3).take (tok.length - 6)) else .other)
       else if rest.getLast? = some q && plainBodyOk q rest.dropLast then .plain rest.dropLast
       else .other
     else .other
@@ -293,9 +286,10 @@ def toFloat {F} (ops : FloatOps F) : V F → Except PyExc F
   | .float x => .ok x
   | .str s => ops.parse s
 
-/-- `_allow_string` (evaluator.py:131-140) -/
+/-- `_allow_string` (evaluator.py:133-147): a token that starts and ends with the same triple quote is rejected first. -/
 def allowString (s : Str) : Bool :=
-  2 ≤ s.length && (match s.head? with | some c => isQuote c | none => false) && (match s.getLast? with | some c => isQuote c | none => false)
+  if longQuoteMinLen ≤ s.length && longQuotes.contains (s.take 3) && s.drop (s.length - 3) = s.take 3 then false
+  else 2 ≤ s.length && (match s.head? with | some c => isQuote c | none => false) && (match s.getLast? with | some c => isQuote c | none => false)
 
 /-- `_cat` (evaluator.py:142-152) -/
 def cat (l r : Str) : Str :=
@@ -316,16 +310,29 @@ def calcI {F} (ops : FloatOps F) (op : Str) (a b : Int) : Except Err Int :=
   | some k => if isArith k then liftPy (intBin k a b) else .error .notAllowed
   | none => .error .notAllowed
 
+/-- `self._calc(left, op, right)` on the two ints themselves (evaluator.py:72-73, taken for `/`): Python's own operation,
+    no `int(...)` around it. -/
+def calcII {F} (ops : FloatOps F) (op : Str) (a b : Int) : Except Err (V F) :=
+  match calcTable.lookup op with
+  | some .div => liftPy ((ops.truediv a b).map .float)
+  | some k => if isArith k then liftPy ((intBin k a b).map .int) else .error .notAllowed
+  | none => .error .notAllowed
+
 /-- `_bitwise` (evaluator.py:111-129): the ladder is the generated `bitTable`. -/
 def bitwiseI (op : Str) (a b : Int) : Except Err Int :=
   match bitTable.lookup op with
   | some k => if isArith k then .error .notAllowed else liftPy (intBin k a b)
   | none => .error .notAllowed
 
-/-- one iteration of the `while` in `_op_bin_each` (evaluator.py:67-87). -/
+/-- one iteration of the `while` in `_op_bin_each` (evaluator.py:67-89). -/
 def step {F} (ops : FloatOps F) (op : Str) (l r : V F) : Except Err (V F) :=
   let isF : V F → Bool := fun v => match v with | .float _ => true | _ => false
-  if isF l || isF r || op = ['/'] then do
+  let isI : V F → Bool := fun v => match v with | .int _ => true | _ => false
+  if isI l && isI r && op = ['/'] then
+    match l, r with
+    | .int a, .int b => calcII ops op a b
+    | _, _ => .error .notAllowed
+  else if isF l || isF r || op = ['/'] then do
     let x ← liftPy (toFloat ops l)
     let y ← liftPy (toFloat ops r)
     let z ← calcF ops op x y
@@ -352,9 +359,10 @@ def pyStrOf {F} (ops : FloatOps F) : V F → Str
   | .float x => ops.toStr x
   | .str s => s
 
-/-- `on_func_call` (evaluator.py:183-200). `arguments[0]` on an empty list is an IndexError. -/
+/-- `on_func_call` (evaluator.py:187-209): exactly `castArity` arguments, then the cast ladder. -/
 def onFuncCall {F} (ops : FloatOps F) (fn : Str) (args : List (V F)) : Except Err (V F) :=
-  if fn = ['i', 'n', 't'] then
+  if args.length ≠ castArity then .error .notAllowed
+  else if fn = ['i', 'n', 't'] then
     match args with
     | [] => .error (.fatal .indexError)
     | .str s :: _ => liftPy ((pyInt 10 (unq s)).map .int)
@@ -368,6 +376,7 @@ def onFuncCall {F} (ops : FloatOps F) (fn : Str) (args : List (V F)) : Except Er
   else if fn = ['s', 't', 'r'] then
     match args with
     | [] => .error (.fatal .indexError)
+    | .str s :: _ => .ok (.str ('"' :: (unq s ++ ['"'])))
     | a :: _ => .ok (.str ('"' :: (pyStrOf ops a ++ ['"'])))
   else .error .notAllowed
 
@@ -395,7 +404,7 @@ def execImpl {F} (ops : FloatOps F) (env : Env) : Nat → Expr → Except Err (V
     match e with
     | .integer tok => onInteger tok
     | .float tok => onFloat ops tok
-    | .string tok => .ok (.str tok)                                       -- on_string (evaluator.py:213-214)
+    | .string tok => if allowString tok then .ok (.str tok) else .error .notAllowed   -- on_string (evaluator.py:221-225)
     | .factor op e => do
       let op' ← onTerminal op
       let v ← execImpl ops env fuel e
@@ -463,18 +472,13 @@ def toPyArgs : List Expr → List PyExpr
   | e :: rest => toPy e :: toPyArgs rest
 end
 
-/-- which regions are cut out of CPython's semantics (all `false` = CPython itself). -/
+/-- which region is cut out of CPython's semantics (`false` = CPython itself). After the repairs of the evaluator one is left. -/
 structure Mode where
-  naiveDiv : Bool      -- H1: `a / b` on ints is computed as `float(a) / float(b)`
-  plainStr : Bool      -- H2: string tokens other than plain '…' / "…" raise `excluded`
-  noStrOfStr : Bool    -- H3: `str(x)` with a string `x` raises `excluded`
   lowerHex : Bool      -- H4: a `0X…` literal raises `excluded`
-  arityLe1 : Bool      -- H5a: a cast with more than one argument raises `excluded`
-  arityGe1 : Bool      -- H5b: a cast without argument raises `excluded`
 deriving DecidableEq, Repr
 
-def Mode.py : Mode := ⟨false, false, false, false, false, false⟩
-def Mode.strict : Mode := ⟨true, true, true, true, true, true⟩
+def Mode.py : Mode := ⟨false⟩
+def Mode.strict : Mode := ⟨true⟩
 
 def pyOpTable : List (Str × BinKind) :=
   [(['+'], .add), (['-'], .sub), (['*'], .mult), (['/'], .div), (['%'], .mod),
@@ -486,13 +490,13 @@ def strRepeat {F} (s : Str) (n : Int) : Except PyExc (V F) :=
   else .ok (.str (List.replicate n.toNat s).flatten)
 
 /-- CPython `l <op> r`. -/
-def pyBin {F} (m : Mode) (ops : FloatOps F) (op : Str) (l r : V F) : Except PyExc (V F) :=
+def pyBin {F} (_m : Mode) (ops : FloatOps F) (op : Str) (l r : V F) : Except PyExc (V F) :=
   match pyOpTable.lookup op with
   | none => .error .unsupported
   | some k =>
     match l, r with
     | .int a, .int b =>
-      if k = .div then ((if m.naiveDiv then ops.naiveDiv a b else ops.truediv a b).map .float)
+      if k = .div then (ops.truediv a b).map .float
       else (intBin k a b).map .int
     | .int a, .float y =>
       if isArith k then do let x ← ops.ofInt a; (floatBin ops k x y).map .float else .error .typeError
@@ -532,11 +536,11 @@ def pyIntLit (m : Mode) (tok : Str) : Except PyExc Int :=
   | none => .error .syntaxError
 
 /-- value of a string literal token -/
-def pyStrLit (m : Mode) (tok : Str) : Except PyExc Str :=
+def pyStrLit (_m : Mode) (tok : Str) : Except PyExc Str :=
   match classifyStr tok with
   | .plain body => .ok body
-  | .triple body => if m.plainStr then .error .excluded else .ok body
-  | .other => if m.plainStr then .error .excluded else .error .unsupported
+  | .triple body => .ok body
+  | .other => .error .unsupported
 
 /-- `str(v)` on a CPython value -/
 def pyStrVal {F} (ops : FloatOps F) : V F → Str
@@ -545,30 +549,28 @@ def pyStrVal {F} (ops : FloatOps F) : V F → Str
   | .str s => s
 
 /-- the builtins `int`, `float`, `str` applied to evaluated arguments. -/
-def pyCall {F} (m : Mode) (ops : FloatOps F) (fn : Str) (args : List (V F)) : Except PyExc (V F) :=
+def pyCall {F} (_m : Mode) (ops : FloatOps F) (fn : Str) (args : List (V F)) : Except PyExc (V F) :=
   if fn = ['i', 'n', 't'] then
     match args with
-    | [] => if m.arityGe1 then .error .excluded else .ok (.int 0)
+    | [] => .ok (.int 0)
     | [.str s] => (pyInt 10 s).map .int
     | [.int n] => .ok (.int n)
     | [.float x] => (ops.toInt x).map .int
     | [.str s, .int b] =>
-      if m.arityLe1 then .error .excluded
-      else if b = 10 then (pyInt 10 s).map .int else if b = 16 then (pyInt 16 s).map .int else .error .unsupported
-    | _ => if m.arityLe1 then .error .excluded else .error .typeError
+      if b = 10 then (pyInt 10 s).map .int else if b = 16 then (pyInt 16 s).map .int else .error .unsupported
+    | _ => .error .typeError
   else if fn = ['f', 'l', 'o', 'a', 't'] then
     match args with
-    | [] => if m.arityGe1 then .error .excluded else (ops.ofInt 0).map .float
+    | [] => (ops.ofInt 0).map .float
     | [.str s] => (ops.parse s).map .float
     | [.int n] => (ops.ofInt n).map .float
     | [.float x] => .ok (.float x)
-    | _ => if m.arityLe1 then .error .excluded else .error .typeError
+    | _ => .error .typeError
   else if fn = ['s', 't', 'r'] then
     match args with
-    | [] => if m.arityGe1 then .error .excluded else .ok (.str [])
-    | [.str s] => if m.noStrOfStr then .error .excluded else .ok (.str s)
+    | [] => .ok (.str [])
     | [a] => .ok (.str (pyStrVal ops a))
-    | _ => if m.arityLe1 then .error .excluded else .error .unsupported
+    | _ => .error .unsupported
   else .error .unsupported
 
 /-- names bound so far, most recent first; a member whose evaluation raised re-raises when it is read. -/
@@ -631,6 +633,31 @@ def simB {F} [DecidableEq F] : V F → V F → Bool
   | .float x, .float y => x = y
   | .str s, .str c => allowString s && unq s = c
   | _, _ => false
+
+/-! ## octal escapes (only to state the one known finding that is left: `_cat` joins token TEXTS) -/
+
+inductive DecState where
+  | normal | backslash | oct (v n : Nat)
+
+def octVal (c : Char) : Option Nat := if 48 ≤ c.toNat ∧ c.toNat ≤ 55 then some (c.toNat - 48) else none
+
+/-- CPython's decoding of the body of a string literal, restricted to `\ooo` (1–3 octal digits); every other backslash
+    sequence is left as it is (outside this model, never generated for the `unescape` stream). -/
+def decodeGo : DecState → Str → Str
+  | .normal, [] => []
+  | .backslash, [] => ['\\']
+  | .oct v _, [] => [Char.ofNat v]
+  | .normal, c :: cs => if c = '\\' then decodeGo .backslash cs else c :: decodeGo .normal cs
+  | .backslash, c :: cs =>
+    match octVal c with
+    | some d => decodeGo (.oct d 1) cs
+    | none => '\\' :: c :: decodeGo .normal cs
+  | .oct v n, c :: cs =>
+    match octVal c with
+    | some d => if n < 2 then decodeGo (.oct (v * 8 + d) (n + 1)) cs else Char.ofNat (v * 8 + d) :: decodeGo .normal cs
+    | none => Char.ofNat v :: (if c = '\\' then decodeGo .backslash cs else c :: decodeGo .normal cs)
+
+def decodeOct (body : Str) : Str := decodeGo .normal body
 
 /-! ## the symbolic float used by the driver and by the examples -/
 
